@@ -252,9 +252,9 @@ read:
 			rc.LocalAddr = cc.localAddr
 
 			e.r.handleServerReq(m, rc)
-			dnsmsg.ReleaseMsg(m)
 
 			buf := mustHaveRespB(m, rc.Response.Msg, dnsmsg.RCodeRefused, true, 0)
+			dnsmsg.ReleaseMsg(m)
 			err := c.AsyncWrite(buf, func(c gnet.Conn, err error) error {
 				pool.ReleaseBuf(buf)
 				if err == nil {
